@@ -2,7 +2,7 @@
    FULL statement (NOT proved, open): for every accepted handler, signal argument values and world, emitting the signal performs the
    effects Sem.run_handler prescribes, in that order, and nothing else.  Decided per generated handler by executing the real output
    (vlib/c13.py); the theorems fix the reference semantics. *)
-From QV Require Import model.Base model.Lang model.Sem proofs.SemProofs proofs.ScopeProofs proofs.FrameProofs model.Overload proofs.OverloadProofs.
+From QV Require Import model.Base model.Lang model.Sem proofs.SemProofs proofs.ScopeProofs proofs.FrameProofs model.Overload proofs.OverloadProofs model.Types spec.Typing model.Callback proofs.CallbackProofs.
 Open Scope Z_scope.
 
 (* effects are recorded in source order: the write of the first statement precedes the write of the second in the trace (most
@@ -73,3 +73,29 @@ Print Assumptions C13_ambiguous_overloads_are_rejected.
 Theorem C13_default_argument_variants_collapse : forall ms, ms <> [] -> (forall x y, In x ms -> In y ms -> comparable x y) -> uniquify ms <> None.
 Proof. exact uniquify_complete. Qed.
 Print Assumptions C13_default_argument_variants_collapse.
+
+(* ---- which signal a handler NAME denotes (qtname.rs callback_to_signal_name), for every byte string ----
+   exactly the names on<Capital><rest> denote a signal, namely <small><rest>; two handler names never denote the same signal, and every signal whose name
+   starts with a small ASCII letter has its handler name *)
+Theorem C13_handler_name_denotes_one_signal : forall name s, callback_to_signal_name name = Some s <->
+  exists c r, name = String "o" (String "n" (String c r)) /\ is_ascii_upper c = true /\ s = String (to_lower c) r.
+Proof. exact signal_name_spec. Qed.
+Print Assumptions C13_handler_name_denotes_one_signal.
+Theorem C13_handler_names_are_injective : forall a b s, callback_to_signal_name a = Some s -> callback_to_signal_name b = Some s -> a = b.
+Proof. exact signal_name_injective. Qed.
+Print Assumptions C13_handler_names_are_injective.
+Theorem C13_every_small_signal_has_its_handler : forall c r, is_ascii_lower c = true -> callback_to_signal_name (handler_name (String c r)) = Some (String c r).
+Proof. exact handler_name_denotes_signal. Qed.
+Print Assumptions C13_every_small_signal_has_its_handler.
+
+(* ---- the declared parameters (uigen/objcode.rs verify_callback_parameter_type), for every class environment, argument list and parameter list ----
+   accepted exactly when there are no more parameters than signal arguments and the k-th argument is assignable (spec/Typing.v: same type, enum/flag alias,
+   pointer to a derived class) to the k-th parameter -- the declared parameters are bound to the LEADING arguments and to nothing that does not fit *)
+Theorem C13_parameters_accepted_iff_leading_arguments_fit : forall E args params, verify_params E args params = POk <->
+  (List.length params <= List.length args)%nat /\
+  forall k, (k < List.length params)%nat -> spec_assignable E (nth k params T_VOID) (DConcrete (nth k args T_VOID)) = true.
+Proof. exact verify_params_ok. Qed.
+Print Assumptions C13_parameters_accepted_iff_leading_arguments_fit.
+Theorem C13_too_many_parameters_are_refused : forall E args params, verify_params E args params = PTooMany <-> (List.length args < List.length params)%nat.
+Proof. exact verify_params_too_many. Qed.
+Print Assumptions C13_too_many_parameters_are_refused.
